@@ -288,6 +288,8 @@ def run(rep):
             if r['obligations']:
                 rep.sample(dict(obligations=[(o['name'], o['result']) for o in r['obligations']][:8]))
     rep.end_kernel()
+    from checks import C08
+    C08.membership_kernel(rep, 'C09')
     bad, cls, detail = oracle(rep.seed)
     rep.validated_runs(25)
     if bad:
@@ -297,6 +299,10 @@ def run(rep):
 
 
 def replay(w):
+    if w['witness'].get('kind') == 'membership':
+        from checks import C08
+        bad, cls, detail = C08.replay_case(w['witness'])
+        return bad, '%s: %s' % (cls, detail)
     bad, cls, detail = oracle(int(w['witness'].get('seed', 7)), 40)
     return bad, '%s: %s' % (cls, detail)
 
